@@ -245,6 +245,12 @@ FaultFails(f2, ln) ==
          THEN Fail(ln.res.ok, "C14:later-op-failed-" \o ln.res.err) ELSE {}
     }
 
+\* C20 in the fault histories: snapshot plus log, decoded by the independent reader, equal the acknowledged history
+\* (every key holds a value the history allows) - also right after a failed call, a burned version, a failed checkpoint
+FaultDecodeFails(f2, d, n) ==
+    LET r == Recover(d, n) IN
+    Fail(r.ok /\ \A k \in Keys : r.idx[k] \in f2[k], "C20:decode-equals-history")
+
 (***************************************************************************)
 (* C10: a damaged log.  base = model before damage (its disk is the clean  *)
 (* directory); P = longest prefix of the logged un-checkpointed records    *)
@@ -313,14 +319,19 @@ BlockVal(left, n) == IF left = n THEN "full" ELSE IF left = 0 THEN "none" ELSE "
 BulkFails(ln) ==
     UNION {
       Fail(ln.rec.val # "panic", "C03:panic"),
-      Fail(ln.rec.ok, "C03:open-after-crash-failed"),
-      IF ln.rec.ok
+      Fail(ln.phase = "reopen" \/ ln.rec.ok, "C03:open-after-crash-failed"),
+      IF ln.rec.ok /\ ln.phase # "reopen"
       THEN Fail(BlockVal(ln.rec.left, ln.n) \in {"full", "none"}, "C03:range-removal-partially-visible")
            \cup Fail(ln.rec.outside, "C03:other-key-lost")
            \cup Fail(ln.rec.len = ln.rec.left + 2, "C03:foreign-key-visible")
       ELSE {},
       IF ln.phase = "done"
       THEN Fail(ln.res.ok /\ ln.res.n = ln.n /\ ln.rec.left = 0, "C03:range-removal-incomplete")
+      ELSE {},
+      \* C02: a clean restart after the (arbitrarily large) removal shows what the handle showed before it was dropped
+      IF ln.phase = "reopen"
+      THEN Fail(ln.rec.ok /\ ln.rec.left = ln.before.left /\ ln.rec.len = ln.before.len /\ ln.rec.outside = ln.before.outside,
+                "C02:changed-by-reopen-after-range-removal")
       ELSE {}
     }
 
@@ -354,7 +365,8 @@ OnFaultOp == /\ Line.ev = "op" /\ sc.mode = "fault"
              /\ LET f2 == IF Line.fault.hit THEN FmFaulted(fm, Line.op)
                           ELSE IF Line.res.ok THEN FmLater(fm, Line.op, Line.res) ELSE FmFaulted(fm, Line.op) IN
                 \* C20 speaks of every instant of every history: also after a failed call the log on disk is well-formed
-                /\ Report(FaultFails(f2, Line) \cup WellFormedFails(DiskOfJson(Line.obs.disk), m.n) \cup BlobFails(Line.obs.disk))
+                /\ Report(FaultFails(f2, Line) \cup WellFormedFails(DiskOfJson(Line.obs.disk), m.n) \cup BlobFails(Line.obs.disk)
+                          \cup FaultDecodeFails(f2, DiskOfJson(Line.obs.disk), m.n))
                 /\ fm' = f2
              /\ UNCHANGED <<m, pobs, sc>>
 
